@@ -145,6 +145,8 @@ class EvRun(Run):
         self.seen_seq = 0
         self.seen_marks = 0
         self.bus_log: list[list] = []
+        self.last_x: dict | None = None
+        self.dropped = 0
         self._raise_next: BaseException | None = None
         self._crash_on_commit = False
         self.fired: list[str] = []
@@ -229,7 +231,10 @@ class EvRun(Run):
         m = self.proj.marks()
         mark = m > self.seen_marks
         self.seen_marks = m
-        return {"x": self.proj.statuses(), "nev": [ev_rec(r) for r in new], "evn": self.proj.event_count(),
+        x = self.proj.statuses()
+        same = x == self.last_x          # unchanged statuses are not repeated in the trace ("same")
+        self.last_x = x
+        return {"same": same, "x": {} if same else x, "nev": [ev_rec(r) for r in new], "evn": self.proj.event_count(),
                 "mark": mark}
 
     def emit(self, ev: dict) -> None:
@@ -238,6 +243,9 @@ class EvRun(Run):
         ev = {k: v for k, v in ev.items() if k not in ("s", "audit")}
         if ev["e"] in ("init", "commit", "rollback", "crash", "sweep", "sendcancel", "quiescent"):
             ev.update(self.obs())
+            if ev["e"] == "commit" and not self.cur_h and ev["same"] and not ev["nev"]:
+                self.dropped += 1        # poll / post-mark / ack outside any handler: a pure stutter of the
+                return                   # projection (statuses and events table unchanged) is not recorded
         ev.setdefault("h", self.cur_h)
         ev["d"] = 0
         self.trace.append(ev)
@@ -396,6 +404,7 @@ class EvRun(Run):
         m["appends"] = self.n_append
         m["appends_txn"] = self.n_append_txn
         m["cas_points"] = self.n_cas
+        m["stutter_commits_not_recorded"] = self.dropped
         return {"prog": self.prog["name"], "program": self.prog, "meta": m, "events": self.trace}
 
 
@@ -706,3 +715,467 @@ def model_check(cfg: dict, props: list[str], workers: int = 4, timeout: int = 14
         return res
     finally:
         shutil.rmtree(rd, ignore_errors=True)
+
+
+# =================================================================================================
+# Known findings proposed by this check (docs/findings_C12.json, docs/findings_C13.json)
+# =================================================================================================
+def _handler_window(trace: dict, at: int) -> list[dict]:
+    """Events of the handler invocation that produced the state at position `at` (1-based, state =
+    events consumed + 1): from its hbegin up to the last consumed event."""
+    evs = trace["events"][:max(0, at - 1)]
+    for i in range(len(evs) - 1, -1, -1):
+        if evs[i]["e"] == "hbegin":
+            return evs[i:]
+    return evs
+
+
+def pred_error_path_no_event(sig, ctx) -> bool:
+    """C13_NoMissing, and the completion without event was written by CompleteStageHandler's
+    `except Exception` path: a commit of a CompleteStage invocation that follows a rollback in the same
+    invocation, sets the stage TERMINAL and appends nothing (model: action CompleteStageErrorCommit)."""
+    if ctx.get("formula") != "C13_NoMissing":
+        return False
+    if ctx.get("source") == "model":
+        return ctx.get("act") == "CompleteStageErrorCommit"
+    tr, at = ctx.get("trace"), ctx.get("at")
+    if not tr or not at:
+        return False
+    win = _handler_window(tr, at)
+    if not win or win[0].get("h") != "CompleteStage" or win[-1]["e"] != "commit":
+        return False
+    ent = win[0]["ent"]
+    return (any(e["e"] == "rollback" for e in win[:-1]) and not win[-1]["nev"]
+            and win[-1]["x"]["st"].get(ent) == "TERMINAL")
+
+
+def pred_skip_event_before_commit(sig, ctx) -> bool:
+    """C13_NoPhantomSkip, and the phantom is the stage.skipped SkipStageHandler records in its own commit
+    BEFORE its state transaction, left behind by a process kill between the two commits."""
+    if ctx.get("formula") != "C13_NoPhantomSkip":
+        return False
+    if ctx.get("source") == "model":
+        return ctx.get("act") == "Crash"
+    tr, at = ctx.get("trace"), ctx.get("at")
+    if not tr or not at:
+        return False
+    evs = tr["events"][:at - 1]
+    if not evs or evs[-1]["e"] != "crash":
+        return False
+    prior = [e for e in evs[:-1] if e["e"] in ("commit", "hbegin")]
+    return bool(prior) and prior[-1]["e"] == "commit" and prior[-1].get("h") == "SkipStage" \
+        and [r["typ"] for r in prior[-1]["nev"]] == ["stage.skipped"]
+
+
+def pred_formula(sig, ctx) -> bool:
+    return ctx.get("formula") in sig.get("formulas", [])
+
+
+findings.PREDICATES["c13_error_path_no_event"] = pred_error_path_no_event
+findings.PREDICATES["c13_skip_event_before_commit"] = pred_skip_event_before_commit
+findings.PREDICATES["c12_formula"] = pred_formula
+
+
+# =================================================================================================
+# The checks
+# =================================================================================================
+EXCLUDED = {"transientinf"}     # never quiesces (known C14 finding: unbounded transient retries)
+
+
+def programs_for(pid: str, tier: str) -> tuple[list[dict], list[dict]]:
+    core_ = [p for p in core_family() if p["name"] not in EXCLUDED]
+    extra_ = [p for p in extra_family() if p["name"] not in EXCLUDED]
+    return core_, extra_
+
+
+def mc_configs(pid: str, tier: str) -> list[dict]:
+    AS_CODE = {}
+    REPAIRED = {"Defect_SkipEventBeforeCommit": "FALSE", "Defect_ErrorPathNoEvent": "FALSE", "Defect_NoTaskCancelEvent": "FALSE"}
+
+    def c(name, progs, cr, rb, fo, ca, sk, extra=None, info=False):
+        d = {"MaxCrashes": cr, "MaxRollbacks": rb, "MaxForce": fo, "MaxCancels": ca, "MaxSkips": sk}
+        d.update(extra or AS_CODE)
+        return {"name": name, "programs": progs, "consts": d, "repaired": extra is REPAIRED, "info": info}
+
+    if pid == "C13":
+        out = [c("c13-s1t1-ascode", ["s1t1"], 1, 1, 1, 1, 1),
+               c("c13-s1t1-cr2", ["s1t1"], 2, 1, 0, 1, 1),
+               c("c13-s2t11-crash", ["s2t11"], 1, 0, 0, 0, 0),
+               c("c13-s1t1-repaired", ["s1t1"], 1, 1, 1, 1, 1, REPAIRED)]
+        if tier == "thorough":
+            out += [c("c13-s1t1-all2", ["s1t1"], 2, 1, 1, 1, 1),
+                    c("c13-s2t11-ascode", ["s2t11"], 1, 1, 0, 0, 0),
+                    c("c13-s1t1-all2-repaired", ["s1t1"], 2, 1, 1, 1, 1, REPAIRED),
+                    c("c13-s1t2-ascode", ["s1t2"], 1, 1, 1, 1, 1),
+                    c("c13-s1t2-cr2rb2", ["s1t2"], 2, 2, 0, 0, 0),
+                    c("c13-s2t21-ascode", ["s2t21"], 1, 1, 0, 0, 0),
+                    c("c13-s2cof-ascode", ["s2cof"], 1, 1, 0, 1, 1),
+                    c("c13-s1t2-repaired", ["s1t2"], 1, 1, 1, 1, 1, REPAIRED),
+                    c("c13-s2t11-repaired", ["s2t11"], 1, 1, 0, 1, 1, REPAIRED)]
+        return out
+    out = [c("c12-s1t2-ascode", ["s1t2"], 0, 0, 1, 1, 1),
+           c("c12-s2t11-ascode", ["s2t11"], 0, 0, 0, 1, 1),
+           c("c12-s2t11-repaired", ["s2t11"], 0, 0, 0, 1, 1, REPAIRED)]
+    if tier == "thorough":
+        out += [c("c12-s2t11-force", ["s2t11"], 0, 0, 1, 1, 1),
+                c("c12-s2t21-ascode", ["s2t21"], 0, 0, 0, 1, 1),
+                c("c12-s2cof-ascode", ["s2cof"], 0, 0, 1, 0, 1),
+                c("c12-s2t21-repaired", ["s2t21"], 0, 0, 1, 1, 1, REPAIRED),
+                # beyond the quantifier of C12 (one worker's delivery schedules): two workers
+                c("c12-s1t1-2workers", ["s1t1"], 0, 0, 0, 1, 0, {"Workers": '{"w1", "w2"}'}, info=True)]
+    return out
+
+
+MC_PROPS = {"C13": C13_FORMULAS,
+            "C12": ["C12_ReplayMatches", "C12_ReplayMatchesCanceledTasks", "C12_Prefix", "C12_Snapshot"]}
+
+
+def chunks(xs, n):
+    xs = list(xs)
+    return [xs[i:i + n] for i in range(0, len(xs), n)]
+
+
+def trace_jobs(pid: str, tier: str, seed: int, refs: dict[str, dict], core_: list[dict], extra_: list[dict]) -> list[dict]:
+    rng = random.Random(seed)
+    jobs: list[dict] = []
+    thorough = tier == "thorough"
+    if pid == "C12":
+        nsched = 40 if thorough else 10
+        for p in core_ + extra_:
+            obs = {"prefixes": True, "snapshots": "all" if thorough else "some", "seed": seed}
+            seeds = [rng.randrange(1, 10 ** 6) for _ in range(nsched)]
+            for grp in chunks(seeds, 5):
+                jobs.append({"kind": "schedule", "prog": p, "seeds": grp, "observe": obs, "opts": {"p_withhold": 0.15}})
+            steps = max(4, refs[p["name"]]["meta"]["commits"] // 4)
+            cseeds = [rng.randrange(1, 10 ** 6) for _ in range(nsched // 2)]
+            for grp in chunks(cseeds, 5):
+                for sd in grp:     # a cancel request at a seeded step of the schedule
+                    jobs.append({"kind": "schedule", "prog": p, "seeds": [sd], "observe": obs,
+                                 "opts": {"p_withhold": 0.1, "cancel_at": 1 + sd % steps}})
+        return jobs
+    # C13
+    for p in core_ + ([q for q in extra_ if q["name"] in ("disabled", "termmid", "stopped")] if not thorough else extra_):
+        m = refs[p["name"]]["meta"]
+        pts = list(range(1, m["commits"] + 1))
+        if not thorough and p["name"] not in ("disabled",):
+            pts = [k for k in pts if k % 2 == seed % 2] if len(pts) > 80 else pts
+        for grp in chunks(pts, 10):
+            jobs.append({"kind": "fifo", "prog": p, "faults": [{"crash_at": k} for k in grp]})
+        for grp in chunks(range(1, m["appends"] + 1), 10):
+            jobs.append({"kind": "fifo", "prog": p, "faults": [{"crash_after_append": k} for k in grp]})
+        fl = [{"exc_after_append": [k, kind]} for k in range(1, m["appends_txn"] + 1) for kind in ("perm", "transient")]
+        fl += [{"cas_conflict": k} for k in range(1, m["cas_points"] + 1)]
+        for grp in chunks(fl, 10):
+            jobs.append({"kind": "fifo", "prog": p, "faults": grp})
+        if thorough:
+            for grp in chunks(pts, 10):
+                jobs.append({"kind": "fifo", "prog": p, "faults": [{"crash_at": k} for k in grp], "sweeps": 2})
+            combos = [{"exc_after_append": [k, kind], "crash_at": rng.randrange(1, m["commits"] + 1)}
+                      for k in range(1, m["appends_txn"] + 1) for kind in ("perm", "transient")]
+            for grp in chunks(combos, 10):
+                jobs.append({"kind": "fifo", "prog": p, "faults": grp})
+    nsched = 12 if thorough else 3
+    for p in core_ + extra_:
+        m = refs[p["name"]]["meta"]
+        seeds = [rng.randrange(1, 10 ** 6) for _ in range(nsched)]
+        for grp in chunks(seeds, 4):
+            jobs.append({"kind": "schedule", "prog": p, "seeds": grp, "opts": {"p_withhold": 0.15}})
+        for sd in seeds[: max(1, nsched // 3)]:     # random delivery order AND a fault of the plan
+            f = rng.choice([{"crash_at": rng.randrange(1, m["commits"] + 1)},
+                            {"exc_after_append": [rng.randrange(1, max(1, m["appends_txn"]) + 1), rng.choice(["perm", "transient"])]},
+                            {"cas_conflict": rng.randrange(1, max(1, m["cas_points"]) + 1)}])
+            jobs.append({"kind": "schedule", "prog": p, "seeds": [sd], "opts": {"p_withhold": 0.1, "faults": f}})
+    return jobs
+
+
+def validate_all(traces: list[dict], props: list[str], batch: int = 40, par: int = 8) -> list[tuple[list[int], Verdict]]:
+    """Batches of traces -> parallel single-worker TLC runs.  Returns (indices, verdict) per batch."""
+    idx = sorted(range(len(traces)), key=lambda i: -len(traces[i]["events"]))
+    nb = max(1, (len(idx) + batch - 1) // batch)
+    groups = [idx[i::nb] for i in range(nb)]          # balanced by size
+    out = []
+
+    def one(g):
+        return g, validate_batch([traces[i] for i in g], props)
+
+    with cf.ThreadPoolExecutor(max_workers=par) as ex:
+        for g, v in ex.map(one, groups):
+            out.append((g, v))
+    return out
+
+
+def flag_and_revalidate(traces: list[dict], rejected: list[tuple[int, int]], props: list[str], rounds: int = 4):
+    """DESIGN 5: a rejected trace is re-submitted with the unexplained line flagged (d = 1, the logged state is
+    adopted) so that the property formulas keep being evaluated on the rest of it.  Returns the extra
+    formula failures found that way: list of {trace, at, formula}."""
+    extra: list[dict] = []
+    pending = dict(rejected)
+    copies = {i: json.loads(json.dumps(traces[i])) for i in pending}
+    for _ in range(rounds):
+        if not pending:
+            break
+        ids = sorted(pending)
+        for i in ids:
+            at = pending[i]
+            if at - 1 < len(copies[i]["events"]):
+                copies[i]["events"][at - 1]["d"] = 1
+        v = validate_batch([copies[i] for i in ids], props, tag="adopt")
+        if v.machinery:
+            break
+        pending = {ids[r["trace"]]: r["at"] for r in v.rejected}
+        last_failed = [{"trace": ids[f["trace"]], "at": f["at"], "formula": f["formula"]} for f in v.failed]
+        extra = last_failed
+    return extra
+
+
+def brief_event(e: dict | None) -> Any:
+    if not e:
+        return None
+    return {k: v for k, v in e.items() if k not in ("x", "r", "prog")}
+
+
+def run(pid: str, tier: str, seed: int) -> int:   # noqa: C901
+    t0 = time.time()
+    rep = Reporter(pid)
+    props = FORMULAS[pid]
+    core_, extra_ = programs_for(pid, tier)
+    by = {p["name"]: p for p in core_ + extra_}
+
+    # ---- (a) model checking of Events.tla on its own, concurrently with the trace generation ----------
+    cfgs = mc_configs(pid, tier)
+    mc_pool = cf.ThreadPoolExecutor(max_workers=3 if tier == "quick" else 4)
+    mc_futs = [mc_pool.submit(model_check, c, MC_PROPS[pid], 4, 1400 if tier == "thorough" else 90, True) for c in cfgs]
+
+    # ---- (b) reference runs (fault-free, in order) give the commit / append / CAS counts -----------------
+    ref_traces = run_jobs([{"kind": "fifo", "prog": p, "observe": ({"prefixes": True, "snapshots": "all"} if pid == "C12" else None)}
+                           for p in core_ + extra_])
+    refs = {t["prog"]: t for t in ref_traces}
+    jobs = trace_jobs(pid, tier, seed, refs, core_, extra_)
+    t_gen = time.time()
+    traces = ref_traces + run_jobs(jobs)
+    gen_wall = time.time() - t_gen
+
+    # ---- (c) TLC validates every recorded execution against Events.tla --------------------------------------
+    t_val = time.time()
+    res = validate_all(traces, props, batch=30 if tier == "quick" else 60, par=8)
+    val_wall = time.time() - t_val
+    n_acc = n_events = n_states = 0
+    failed: list[dict] = []
+    rejected: list[tuple[int, int]] = []
+    for g, v in res:
+        if v.machinery:
+            rep.machinery_failure("trace validation: " + v.machinery)
+            continue
+        n_acc += v.accepted
+        n_events += v.events
+        n_states += v.states
+        for r in v.rejected:
+            rejected.append((g[r["trace"]], r["at"]))
+        for f in v.failed:
+            failed.append({"trace": g[f["trace"]], "at": f["at"], "formula": f["formula"]})
+    if rejected and not rep.machinery:
+        extra = flag_and_revalidate(traces, rejected[:60], props)
+        seen = {(f["trace"], f["formula"]) for f in failed}
+        failed += [f for f in extra if (f["trace"], f["formula"]) not in seen]
+
+    def replay_doc(t: dict, formula: str, at: int) -> dict:
+        return {"pid": pid, "kind": "trace", "program": t["program"], "meta": t["meta"], "formula": formula, "at": at}
+
+    groups: dict[tuple, dict] = {}
+    for ti, at in rejected:
+        t = traces[ti]
+        ev = t["events"][at - 1] if at - 1 < len(t["events"]) else None
+        key = ("CONFORMANCE", t["prog"], t["meta"]["kind"], (ev or {}).get("e"), (ev or {}).get("h"))
+        g = groups.setdefault(key, {"n": 0, "first": (ti, at)})
+        g["n"] += 1
+    for f in failed:
+        t = traces[f["trace"]]
+        key = (f["formula"], t["prog"], t["meta"]["kind"], json.dumps(sorted((t["meta"].get("faults") or {}).keys())))
+        g = groups.setdefault(key, {"n": 0, "first": (f["trace"], f["at"]), "all": []})
+        g["n"] += 1
+        g.setdefault("all", []).append((f["trace"], f["at"]))
+    n_viol_traces = 0
+    for key, g in sorted(groups.items(), key=lambda kv: str(kv[0])):
+        formula = key[0]
+        insts = g.get("all") or [g["first"]]
+        unmatched = []
+        for (ti, at) in insts:      # every instance goes through the known-findings matcher
+            t = traces[ti]
+            before = len(rep.violations)
+            ev = t["events"][at - 1] if at - 1 < len(t["events"]) else None
+            prev = t["events"][at - 2] if at >= 2 else None
+            what = (f"{formula} on a recorded execution of '{t['prog']}' ({t['meta']['kind']}, faults={t['meta'].get('faults')}, "
+                    f"seed={t['meta'].get('seed')}) at position {at}: after {json.dumps(brief_event(prev))[:160]}"
+                    + (f" the step {json.dumps(brief_event(ev))[:200]} is no instance of any Events.tla action" if formula == "CONFORMANCE" else ""))
+            rep.violation(what, {"formula": formula, "source": "trace", "trace": t, "at": at, "program": t["program"]},
+                          replay_doc(t, formula, at))
+            if len(rep.violations) > before:
+                unmatched.append(rep.violations.pop())
+        if unmatched:
+            n_viol_traces += len(unmatched)
+            v0 = unmatched[0]
+            v0["what"] = f"[{len(unmatched)} recorded executions] " + v0["what"]
+            rep.violations.append(v0)
+
+    # ---- model-checking results ------------------------------------------------------------------------------
+    mc_res = [f.result() for f in mc_futs]
+    mc_pool.shutdown()
+    mc_cov: dict[str, int] = {}
+    mc_rows = []
+    for r in mc_res:
+        row = {"config": r.config["name"], "programs": r.config["programs"], "consts": r.config["consts"],
+               "states": r.distinct, "transitions": r.generated, "depth": r.depth, "wall_s": round(r.wall, 1),
+               "formula_failures": r.viol_counts, "informational": r.config.get("info", False)}
+        mc_rows.append(row)
+        if r.machinery:
+            timed_out = "timed out" in r.machinery
+            if not (timed_out and r.config.get("info")):
+                rep.machinery_failure(f"model checking {r.config['name']}: " + r.machinery[-1500:])
+            continue
+        for a, n in r.coverage.items():
+            mc_cov[a] = mc_cov.get(a, 0) + n
+        if r.config.get("info"):
+            continue
+        for v in r.viols:
+            what = (f"{v['formula']} is false in a state of the MODEL ({r.config['name']}, {r.config['consts']}) reached by "
+                    f"{v['act']}: {json.dumps(v['state'])[:300]}")
+            if r.config.get("repaired"):
+                what = "[repaired design] " + what
+            rep.violation(what, {"formula": v["formula"], "source": "model" if not r.config.get("repaired") else "model-repaired",
+                                 "act": v["act"], "state": v["state"], "program": None},
+                          {"pid": pid, "kind": "model", "config": r.config, "formula": v["formula"], "act": v["act"]})
+    never = sorted(a for a in MC_ACTIONS if a != "StartStageReplan" and mc_cov.get(a, 0) == 0)
+    if pid == "C12":
+        never = [a for a in never if a not in ("Raise", "Rollback", "Crash", "CompleteStageErrorCommit")]  # crash-free configs
+    if never and not rep.machinery:
+        rep.machinery_failure("vacuity: specification actions never taken in any model-checking config: " + ", ".join(never))
+
+    # ---- vacuity of the binding ------------------------------------------------------------------------------------
+    kinds: dict[str, int] = {}
+    fired: dict[str, int] = {}
+    obs_count = {"replay_full": 0, "replay_prefix": 0, "replay_snapshot": 0, "snapshots": 0}
+    evkinds: dict[str, int] = {}
+    for t in traces:
+        k = t["meta"]["kind"] + ("+" + "+".join(sorted((t["meta"].get("faults") or {}).keys())) if t["meta"].get("faults") else "")
+        kinds[k] = kinds.get(k, 0) + 1
+        for f in t["meta"]["fired"]:
+            fired[f] = fired.get(f, 0) + 1
+        for e in t["events"]:
+            evkinds[e["e"]] = evkinds.get(e["e"], 0) + 1
+            if e["e"] == "replay":
+                obs_count["replay_snapshot" if e["p"] else ("replay_full" if e["full"] else "replay_prefix")] += 1
+            elif e["e"] == "mksnap":
+                obs_count["snapshots"] += 1
+    if pid == "C13" and not rep.machinery:
+        for need in ("crash", "rollback", "pub", "append"):
+            if not evkinds.get(need):
+                rep.machinery_failure(f"vacuity: no '{need}' event in any recorded execution")
+        for need in ("exc", "cas", "crash_after_append"):
+            if not fired.get(need):
+                rep.machinery_failure(f"vacuity: fault '{need}' never fired")
+    if pid == "C12" and not rep.machinery:
+        for need in ("replay_full", "replay_prefix", "replay_snapshot"):
+            if not obs_count[need]:
+                rep.machinery_failure(f"vacuity: no {need} observation")
+
+    samples = []
+    for t in traces[:1] + traces[len(ref_traces):len(ref_traces) + 2]:
+        samples.append({"program": t["prog"], "meta": {k: v for k, v in t["meta"].items() if k != "observe"},
+                        "events": len(t["events"]),
+                        "excerpt": [brief_event(e) for e in t["events"] if e["e"] in ("append", "rollback", "crash", "pub", "inject")][:8]})
+    for r in mc_res[:1]:
+        for v in r.viols[:1]:
+            samples.append({"model_state": v["state"], "formula": v["formula"], "config": r.config["name"]})
+    rc = rep.finish()
+    coverage = {
+        "states": sum(r.distinct for r in mc_res) + n_states,
+        "transitions": sum(r.generated for r in mc_res) + n_events,
+        "model_checking": mc_rows,
+        "model_states": sum(r.distinct for r in mc_res),
+        "model_actions_coverage": mc_cov,
+        "exhaustive": "within the constants of each model-checking config (bounded crashes / rollbacks / jumps); traces are enumerated "
+                      "(every commit / append / CAS point of each program) or sampled (schedules)",
+        "traces_validated_against_impl": len(traces),
+        "traces_accepted": n_acc,
+        "traces_rejected": len(rejected),
+        "trace_events": n_events,
+        "trace_states": n_states,
+        "trace_kinds": kinds,
+        "event_kinds": evkinds,
+        "faults_fired": fired,
+        "observations": obs_count,
+        "formulas": props,
+        "formula_failures_on_traces": {f: sum(1 for x in failed if x["formula"] == f) for f in sorted({x["formula"] for x in failed})},
+        "programs": sorted(by),
+        "excluded_programs": sorted(EXCLUDED),
+        "known_findings_seen": rep.known_hits,
+        "wall": {"generation_s": round(gen_wall, 1), "validation_s": round(val_wall, 1)},
+        "samples": samples,
+    }
+    write_evidence(pid, tier, seed, "model_checking", coverage, time.time() - t0, violations=len(rep.violations),
+                   assumptions=["single worker (delivery schedules of one worker; two workers only in an informational model config)",
+                                "SQLite backend, event store in the same database file",
+                                "a crash is a process kill between two SQL statements; torn writes are SQLite's business"])
+    print(f"{pid} {tier}: model {coverage['model_states']} states in {len(mc_res)} configs; {len(traces)} recorded executions "
+          f"({n_events} events) validated by TLC, {n_acc} accepted, {len(rejected)} rejected; formula failures "
+          f"{coverage['formula_failures_on_traces']}; model failures {[(r.config['name'], r.viol_counts) for r in mc_res if r.viol_counts]}; "
+          f"wall {time.time() - t0:.0f}s")
+    return rc
+
+
+# =================================================================================================
+# --replay
+# =================================================================================================
+def rerun(doc: dict) -> dict:
+    meta, prog = doc["meta"], doc["program"]
+    if meta["kind"] == "fifo":
+        return drive_fifo(prog, meta.get("faults"), meta.get("observe") or None, meta.get("sweeps", 1))
+    o = dict(meta.get("opts") or {})
+    return drive_schedule(prog, meta["seed"], observe=meta.get("observe") or None, faults=meta.get("faults") or None, **o)
+
+
+def replay(pid: str, path: str) -> int:
+    doc = json.load(open(path))
+    formula = doc.get("formula")
+    if doc["kind"] == "model":
+        r = model_check(doc["config"], [formula], workers=4, timeout=1400, coverage=False)
+        if r.machinery:
+            print("MACHINERY-FAILURE:", r.machinery[-1500:])
+            return 2
+        hit = [v for v in r.viols if v["formula"] == formula]
+        print("model config", doc["config"]["name"], "states", r.distinct, "failures", r.viol_counts)
+        if hit:
+            print(f"VIOLATION property={pid} replay={path}")
+            print("  " + json.dumps(hit[0]["state"])[:400])
+            return 1
+        return 0
+    t = rerun(doc)
+    props = FORMULAS[pid]
+    v = validate_batch([t], props, tag="replay")
+    if v.machinery:
+        print("MACHINERY-FAILURE:", v.machinery[-1500:])
+        return 2
+    failed = [f["formula"] for f in v.failed]
+    if v.rejected:
+        extra = flag_and_revalidate([t], [(0, v.rejected[0]["at"])], props)
+        failed += [f["formula"] for f in extra]
+    print("replayed", t["prog"], t["meta"]["kind"], t["meta"].get("faults"), "events", len(t["events"]),
+          "rejected at", [r["at"] for r in v.rejected], "failed", sorted(set(failed)))
+    bad = (formula == "CONFORMANCE" and v.rejected) or formula in failed
+    if bad:
+        print(f"VIOLATION property={pid} replay={path}")
+        return 1
+    return 0
+
+
+if __name__ == "__main__":
+    import argparse
+
+    ap = argparse.ArgumentParser()
+    ap.add_argument("pid")
+    ap.add_argument("--tier", default=os.environ.get("VERIF_TIER", "quick"))
+    ap.add_argument("--replay", default=None)
+    a = ap.parse_args()
+    if a.replay:
+        sys.exit(replay(a.pid, a.replay))
+    sys.exit(run(a.pid, a.tier, int(os.environ.get("VERIF_SEED", "1"))))
